@@ -538,6 +538,10 @@ def gen_scen(rng, prim=None):
         quantum = rng.choice([mx * 1000000, mx * 1000000 // 2, mx * 1000000 - 1, mx * 1000000 // 2 + 1, mx * 1000000 // 3 + 1])
     else:
         quantum = rng.choice([1, 1000000])
+    if quantum >= 333334 and rng.random() < 0.15:      # Thread::sleep on the virtual clock (few ticks only)
+        tgt = progs[rng.randrange(len(progs))][1]
+        if not any(o.startswith("try") for o in tgt):
+            tgt.insert(rng.choice([0, len(tgt)]) if tgt is not progs[0][1] else 0, f"sleep-{rng.choice([0, 1, 1, 2])}")
     nsec = rng.choice([0, 1, 999999999, 999000000, 500000000, 999999999 - (mx % 1000) * 1000000 if mx else 0, rng.randrange(NSEC)])
     nsec = min(max(nsec, 0), NSEC - 1)
     init = {"sem": rng.choice([0, 0, 1, 2]), "sig": rng.choice([0, 0, 1])}.get(prim, 0)
@@ -754,6 +758,10 @@ def contracts(sc, tr):
             DLCOV[key] = DLCOV.get(key, 0) + 1
             if v == "0" and c.te == c.tb + c.arg * 1000000:
                 DLCOV[f"{sc.prim} false exactly at the deadline"] = DLCOV.get(f"{sc.prim} false exactly at the deadline", 0) + 1
+        if op == "sleep":
+            bump("Thread::sleep returned")
+            if c.te < c.tb + c.arg * 1000000:
+                errs.append(f"Thread::sleep({c.arg}) of thread {t} returned at virtual time {c.te} < call time {c.tb} + {c.arg} ms")
         if op == "twait" and v == "0":
             if c.te < c.tb + c.arg * 1000000:
                 errs.append(f"timed wait of thread {t} (op {c.k}, {c.arg} ms) returned false at virtual time {c.te} < call time {c.tb} + time-out")
@@ -843,7 +851,7 @@ def contracts(sc, tr):
             if c.e is None and started[c.t]:
                 if sc.prim == "sem" and c.op in ("wait", "twait", "trywait") and count > 0:
                     return f"semaphore: thread {c.t} blocked in {c.op} at the end while the count is {count}"
-                if c.op in ("try", "trywait", "signal") or (c.op in ("twait", "set", "reset") and sc.prim in ("sig", "sem")):
+                if c.op in ("try", "trywait", "signal", "sleep") or (c.op in ("twait", "set", "reset") and sc.prim in ("sig", "sem")):
                     return f"thread {c.t} is stuck in the non-blocking / timed call {c.op}"
                 if sc.prim == "mtx" and c.op == "lock" and depth == 0:
                     return f"mutex: thread {c.t} blocked in lock() on a free mutex"
@@ -1107,6 +1115,9 @@ FIXED_SCENARIOS = [
     # Mutex::Guard / Monitor::Guard (nested; Guard::wait both forms), Thread::getCurrentThreadId / yield
     "scen mtx 0 0 0 1 0 0 T:0:start-1,mstart-2,tid,join-1,join-2 T:1:glock,glock,tid,gunlock,gunlock T:2:yield,try-2,glock,gunlock,unlock",
     "scen mon 0 5 999000000 1500000 1 0 T:0:start-1,start-2,yield,join-1,join-2 T:1:glock,gwait,gtwait-2,gunlock T:2:set,tid,set",
+    # Thread::sleep on the virtual clock: usleep(ms * 1000) returns only after the clock has advanced by ms
+    "scen thr 0 5 999999000 400000 0 0 T:0:start-1,sleep-1,join-1,sleep-0 T:3:sleep-2",
+    "scen sig 0 5 0 1000000 1 0 T:0:start-1,start-2,join-1,join-2 T:1:sleep-2,set T:2:twait-1,sleep-1,wait",
 ] + [
     # deadline arithmetic: timed waits of every primitive at clock phases where (ms within the second + timeout % 1000) does /
     # does not cross 1000, with time-outs below and above one second; the last one expires exactly at a tick
